@@ -115,6 +115,5 @@ void vh_put_hooks(FILE *f, int keyed);		/* drains and prints ,"hooks":[...] (key
 
 /* ---- fake clock (link vh_clock.c) ------------------------------------------ */
 extern time_t vh_now, vh_tick;
-extern unsigned long vh_clock_reads;
 
 #endif
